@@ -53,16 +53,20 @@ RF_all == {"tombCorrupt", "stateCorrupt", "tombUnreadable"}
 AtEnd   == pc = "PublishOrClear"
 NoErr   == ~tombErr /\ ~stateErr
 \* an add hold-down one day short: the pending key is present, authenticated, 29 days old
-D_Pend29Present == ~(AtEnd /\ NoErr /\ ~revOnly /\ \E t \in DOMAIN cur :
+D_Pend29Present == ~(AtEnd /\ NoErr /\ gFull /\ zone.revoked = {} /\ \E t \in DOMAIN cur :
                         cur[t].st = "AddPend" /\ cur[t].age = 29 /\ t \in DOMAIN fetched /\ fetched[t] = cur[t].k)
 \* ... and completed
 D_Promote31     == ~(AtEnd /\ NoErr /\ \E k \in KeysIn(cur, {"Valid"}) \ Configured : k \notin rootKeys)
 \* a pending key that skips one accepted refresh starts over
-D_PendAbort     == ~(pc = "WriteTombstones" /\ gFull /\ \E k \in Keys \ Configured :
-                        seenSince[k] # None /\ seenSince[k] > 0 /\ k \notin Plain(zone) /\ k \notin rootKeys)
-D_Missing89Kept == ~(AtEnd /\ NoErr /\ \E t \in DOMAIN cur : cur[t].st = "Missing" /\ cur[t].age = 89)
-D_Missing91Gone == ~(AtEnd /\ NoErr /\ gFull /\ gRevSet = {} /\ \E k \in gT : k \notin KeysIn(cur, Trusted \cup Marker))
-D_Reappear      == ~(pc = "WriteTombstones" /\ gFull /\ \E k \in gT \cap Plain(zone) : missSince[k] # None /\ missSince[k] > 0)
+D_PendAbort     == ~(pc = "WriteTombstones" /\ gFull /\ zone.revoked = {} /\ \E k \in Keys \ Configured :
+                        seenSince[k] # None /\ seenSince[k] > 0 /\ k \notin zone.keys /\ k \notin rootKeys)
+D_Missing89Kept == ~(AtEnd /\ NoErr /\ gFull /\ zone.revoked = {} /\ \E t \in DOMAIN cur :
+                        cur[t].st = "Missing" /\ cur[t].age = 89 /\ t \notin DOMAIN fetched)
+D_Missing91Gone == ~(AtEnd /\ NoErr /\ gFull /\ zone.revoked = {} /\ \E k \in gT :
+                        /\ missSince[k] # None /\ missSince[k] >= 90 /\ k \notin zone.keys
+                        /\ k \notin KeysIn(cur, Trusted \cup Marker))
+D_Reappear      == ~(pc = "WriteTombstones" /\ gFull /\ zone.revoked = {} /\ \E k \in gT \cap zone.keys :
+                        missSince[k] # None /\ missSince[k] > 0)
 D_RevokeFull    == ~(AtEnd /\ NoErr /\ gFull /\ newRev)
 D_RevokeOnly    == ~(AtEnd /\ NoErr /\ revOnly /\ newRev)
 \* a response only a revoked key authenticates offers a new key and omits a trusted one
@@ -82,7 +86,7 @@ D_CrashBetween  == ~(AtEnd /\ booting /\ nCrash = 1 /\ tombs \cap Configured # {
 D_CrashBeforeWrites == ~(AtEnd /\ NoErr /\ nCrash = 1 /\ gFull /\ \E t \in DOMAIN cur :
                             cur[t].st = "AddPend" /\ cur[t].age = 0 /\ seenSince[cur[t].k] # None /\ seenSince[cur[t].k] > 0)
 D_TombCorrupt   == ~(pc = "idle" /\ ~booting /\ tombFile.kind = "corrupt" /\ nRefresh = 2)
-D_StateCorrupt  == ~(AtEnd /\ NoErr /\ nRF = 1 /\ gFull /\ earned # {})
+D_StateCorrupt  == ~(pc = "ReadTombstones" /\ stateFile.kind = "corrupt" /\ earned # {} /\ earned \subseteq rootKeys)
 \* unauthenticated bait: new key offered, trusted key dropped, nobody trusted signs
 D_UnauthBait    == ~(pc = "Authenticate" /\ ~booting /\ ~OracleAuth /\ Plain(zone) \ rootKeys # {} /\ rootKeys \ zone.keys # {}
                      /\ zone.signedN # {})
